@@ -232,6 +232,17 @@ func (lex *Lexer) pendingAtEnd() bool {
 	return lex.buffer.Len() > 0 || lex.state != LexerNormal
 }
 
+// insideLiteral reports whether the input so far ends inside a string or
+// rune literal. Unlike raw strings and block comments these have no opening
+// token of their own on which the parser could wait for the rest.
+func (lex *Lexer) insideLiteral() bool {
+	switch lex.state {
+	case LexerStrLit, LexerStrEscaped, LexerRuneLit, LexerRuneEscaped, LexerEscDigits:
+		return true
+	}
+	return false
+}
+
 func (lex *Lexer) EmptyToken() Token {
 	return Token{}
 }
